@@ -2,6 +2,10 @@
 //! CommandAnalyzer::extract_type_names (the name harvester) and
 //! TypeResolver::parse_type_structure + TypeCollector::collect_referenced_types_from_structure.
 use serde_json::{json, Value};
+use std::fs;
+use std::path::Path;
+use tauri_typegen::generators::create_generator;
+use tauri_typegen::GenerateConfig;
 use std::collections::HashSet;
 use tauri_typegen::analysis::type_resolver::TypeResolver;
 use tauri_typegen::analysis::CommandAnalyzer;
@@ -24,6 +28,51 @@ pub fn harvest(case: &Value) -> Value {
     json!({"id": case["id"], "names": names, "used": used})
 }
 
+/// `rounds`: one generator object (and, unless fresh_analyzer, one analyzer) over several projects; see c09.rs
+fn write_sources(root: &Path, files: &Value) {
+    let src = root.join("proj");
+    let _ = fs::remove_dir_all(&src);
+    for (rel, text) in files.as_object().unwrap() {
+        let p = src.join(rel);
+        fs::create_dir_all(p.parent().unwrap()).unwrap();
+        fs::write(&p, text.as_str().unwrap()).unwrap();
+    }
+}
+
+/// case: {"id", "dir": scratch directory (exists, empty), "mode": "zod"|"none", "rounds": [{"files": {rel: text}}, ...]}
+/// answer: {"id", "rounds": [{"ok": bool, "types_ts": text | null, "error": msg | null}, ...]}
+pub fn rounds(case: &Value) -> Value {
+    let root = Path::new(case["dir"].as_str().unwrap()).to_path_buf();
+    let mode = case["mode"].as_str().unwrap_or("zod").to_string();
+    let fresh = case["fresh_analyzer"].as_bool().unwrap_or(false);
+    let mut analyzer = CommandAnalyzer::new();
+    let mut generator = create_generator(Some(mode.clone()));
+    let mut out = Vec::new();
+    for (k, round) in case["rounds"].as_array().unwrap().iter().enumerate() {
+        write_sources(&root, &round["files"]);
+        let out_dir = root.join(format!("out{}", k));
+        let config = GenerateConfig {
+            project_path: root.join("proj").to_string_lossy().to_string(),
+            output_path: out_dir.to_string_lossy().to_string(),
+            validation_library: mode.clone(),
+            ..Default::default()
+        };
+        if fresh {
+            analyzer = CommandAnalyzer::new();      // a new analysis per project, the generator object is kept
+        }
+        let res = (|| -> Result<String, Box<dyn std::error::Error>> {
+            let commands = analyzer.analyze_project(&config.project_path)?;
+            generator.generate_models(&commands, analyzer.get_discovered_structs(), &config.output_path, &analyzer, &config)?;
+            Ok(fs::read_to_string(out_dir.join("types.ts"))?)
+        })();
+        match res {
+            Ok(text) => out.push(json!({"ok": true, "types_ts": text, "error": null})),
+            Err(e) => out.push(json!({"ok": false, "types_ts": null, "error": e.to_string()})),
+        }
+    }
+    json!({"id": case["id"], "rounds": out})
+}
+
 fn main() {
-    tt_harness::dispatch(&[("harvest", harvest)]);
+    tt_harness::dispatch(&[("harvest", harvest), ("rounds", rounds)]);
 }
